@@ -42,7 +42,9 @@ Apply(ev) ==
 
 Op(ev) ==
   /\ UNCHANGED <<hasDefault, tr, nontrivial>>
-  /\ IF ev.kind = "delete"
+  /\ IF ev.result = "panicked"
+     THEN UNCHANGED <<srcs, sets>> /\ Bad(ev, "operation-panicked")
+     ELSE IF ev.kind = "delete"
      THEN /\ Apply(ev)
           /\ IF ev.result = "ok" THEN UNCHANGED bad ELSE Bad(ev, "delete-rejected")
      ELSE LET rest == Without(srcs, ev.src) IN
